@@ -123,8 +123,15 @@ impl Punctuation {
     }
 }
 
-#[derive(Debug, Clone, Copy, PartialEq, Eq, Serialize, Deserialize, PartialOrd, Hash)]
+#[derive(Debug, Clone, Copy, PartialEq, Eq, Serialize, Deserialize, PartialOrd)]
 pub struct Quote {
     /// The location of the matching quote, if it exists.
     pub twin_loc: Option<usize>,
+}
+
+impl std::hash::Hash for Quote {
+    /// The twin's location is a position in the document, not a property of the
+    /// quote itself, so it must not contribute to location-agnostic hashes
+    /// (such as the context hash of an ignored lint).
+    fn hash<H: std::hash::Hasher>(&self, _state: &mut H) {}
 }
